@@ -6,6 +6,7 @@ for d in seeded/*/; do
   extra=""
   [ "$id" = "C08-B" ] && extra="C08 C12"
   [ "$id" = "C13-L" ] && extra="C13 C15"
+  [ "$id" = "C07-L" ] && extra="C07 C19"
   out=$(tools/seedtest.sh "$prop" "$d/patch.diff" "$d/demo_test.go" quick $extra 2>&1)
   keys=$(echo "$out" | grep -c '^  key=')
   conf=$(echo "$out" | grep -E '^(demo_without|suite_with|demo_with)=' | tr '\n' ' ')
